@@ -8,7 +8,7 @@ cd "$WT" || exit 2
 export CARGO_NET_OFFLINE=true
 {
 echo "== confirm $ID $(date)"
-git stash -q 2>/dev/null; git checkout -q -- . 2>/dev/null
+git checkout -q -- . 2>/dev/null   # (no git stash: the stash stack is shared by all worktrees)
 git apply "$SD/patch.diff" && echo "patch applies"
 echo "-- lib tests with patch"; cargo test --offline --lib 2>&1 | grep -E '^test result' 
 echo "-- demo with patch (expected to FAIL)"; cargo test --offline $EXTRA --test "$DEMO" 2>&1 | grep -E '^test result|panicked|FAILED' | head -14
